@@ -110,7 +110,7 @@ def sweep_case(ctx, w):
 
 def build_case(ctx, i, wide_prob):
     rng = ctx.sub_rng('design', i)
-    d = gen_designs.make_design(rng, wide_prob=wide_prob)
+    d = gen_designs.make_design(rng, wide_prob=wide_prob, sparse_rom_prob=0.5)
     ncycles = rng.randint(2, 8 if ctx.tier == 'quick' else 20)
     dflt = 0 if rng.random() < 0.8 else 1
     regmap, memmap, inputs = gen_designs.make_stimulus(rng, d, ncycles)
